@@ -109,6 +109,12 @@ PROPS = {
         "shards": {"quick": 12, "thorough": 16}, "timeout": {"quick": 800, "thorough": 14000},
         "floors": {"quick": {"concurrent_runs": 40, "request_pairs_overlapping_across_associations": 2000, "union_images_compared": 30}, "thorough": {"concurrent_runs": 2000}},
     },
+    "C08": {
+        "test": "TestVerif_C08", "level": "exploration",
+        "rule": "(i) parsePDR called directly on Create PDR IEs carrying flow descriptions drawn from the grammar (permit|deny, in|out, ip|tcp|udp|number (spelled numerically too), from/to any|assigned|IPv4[/0..32] in both endpoint orders, single ports and ranges, with and without a UE address, both PDR directions) and on their malformed neighbourhood (unknown action/direction, missing or unparsable address/port tokens, inverted ranges, truncation after every token); the resulting filter is compared with a positional reference interpretation; (ii) PFD histories end to end: accepted and rejected PFD Management Requests interleaved with sessions whose PDRs name known/unknown application ids, filters read from the entries at the harness BESS server and compared verbatim; distinct = <direction, from kind, to kind, protocol?, ports, UE?> classes, malformed classes, <applications, flows>",
+        "shards": {"quick": 12, "thorough": 16}, "timeout": {"quick": 600, "thorough": 12000},
+        "floors": {"quick": {"flow_descriptions_parsed": 20000, "pfd_requests": 500, "sessions_with_application_id": 300}, "thorough": {"flow_descriptions_parsed": 1500000}},
+    },
     "C10": {
         "test": "TestVerif_C10", "level": "exploration",
         "rule": "scenario = {0..n associations (some >100)} x {0-3 sessions} x trigger per association {release, silence->read timeout(+heartbeat failure), unanswered heartbeats, live} x requests in flight x datapath reply delay x PFCPIface.Stop() at a drawn offset (+-3.5 ms around the coinciding triggers), fresh agent per scenario, plus a 'refresh' family (association ends without Stop, same address:port associates afresh, bystander association checked); distinct = distinct interleaving signatures (datapath, heartbeat on/off, delay, stop offset in ms, multiset of per-association <trigger, order relative to Stop, release answered?, sessions>)",
@@ -125,6 +131,31 @@ PROPS = {
 
 # Texts for MANIFEST.json (bin/mkmanifest.py); a property is registered once it appears here.
 MANIFEST_TEXT = {
+    "C05": {
+        "technique": "runtime monitoring: conservation monitor (in = out + held) over live allocator and datapath state read at quiescent points under the agent's own locks, after every way a session can end; allocator pools driven through several full wraps",
+        "text": "Sessions are ended in every way the code has (deletion, association release, heartbeat expiry, peer restart, failed/rejected establishment, injected datapath failures, report-triggered removal) on both datapaths; after each ending the monitor compares occupancy of the UE pool, F-TEID generator, UP4 counter/meter/application/tunnel-peer id pools and the datapath tables with the set of live sessions, and drives each pool through more allocations than its size to show reclaimed ids are reusable. Two listed known findings (UP4) print KNOWN-FINDING.",
+        "note": "Reads of agent state are quiesced (all associations' handler locks held). Not reached: a real process kill (endings are simulated in-process).",
+    },
+    "C08": {
+        "technique": "runtime monitoring: grammar-directed generation with a positional reference interpreter as oracle, on the parser called in-process and end to end on the entries received by the harness BESS server; PFD histories against a table model",
+        "text": "24k/2M flow descriptions per run from the grammar and its malformed neighbourhood (each malformed class of the statement) through parsePDR on real Create PDR IEs for both directions, with and without UE address: panic, refusal and the resulting filter are judged against the reference interpretation; PFD Management histories (accepted/rejected, replacing/partial) interleaved with sessions naming known/unknown application ids, the programmed match fields compared verbatim with the provisioned flow description of the matching direction keyword.",
+        "note": "IPv6 tokens and descriptions with ports on both endpoints are outside the property and driven for crash-freedom only. The UE-side slot is compared only when written as `assigned`.",
+    },
+    "C09": {
+        "technique": "runtime monitoring: arithmetic reference monitor on the QoS values received by the harness datapath servers (BESS Qos table entries, UP4 meter configs), boundary-value and random rates, model of session-level QER designation over histories",
+        "text": "Rates at and around every boundary of the conversion (0, 1 kbps, burst floors, uint32/uint64 limits, GBR/MBR relations) and random ones are sent in real sessions; the cir/pir/cbs/pbs/ebs and gate values arriving at the datapath are compared with an independent computation, and the session-QER designation is compared with the model after every create/update/remove. Two listed known findings print KNOWN-FINDING.",
+        "note": "The burst-duration constants are read from the agent's configuration, not re-derived.",
+    },
+    "C11": {
+        "technique": "runtime monitoring: race detector (owned: any repository race fails the check) on concurrent PFCP peers, union-image comparison at quiescence, occupancy conservation, simultaneous-first-datagram family",
+        "text": "3-8 associations issue establishment/modification/deletion streams concurrently against one agent on both datapaths (GOMAXPROCS varied); at quiescence the datapath holds exactly the union of the per-association reference images, allocator occupancy equals the live sessions, every request got exactly one reply on its own association; new peers send their first datagrams simultaneously with running traffic. Evidence counts overlapping request pairs actually observed.",
+        "note": "UDP I/O gives the race detector no happens-before edge on Linux, so harness reads are taken under the agent's handler locks; a race with a harness frame is inconclusive, not a violation.",
+    },
+    "C15": {
+        "technique": "runtime monitoring with fault enumeration: the harness P4Runtime server fails the k-th write for every k of fixed multi-session scenarios (and random multi-failure subsets); ownership monitor over the switch entries and the agent's id pools after every step",
+        "text": "Six scenarios of establishments, GTP-peer-moving modifications and deletions over sessions sharing tunnel peers and applications are first run fault-free to count their W writes, then re-run failing write k for every k (and random subsets of writes); after every step the monitor derives owners from the entries the switch holds (counter index, app-meter and session-meter cells, tunnel-peer id, application id carried by entries of two owners), compares them with the agent's pools read at quiescence (id in use by an entry and free in its pool; id in a foreign pool), and checks that a request with a failed write is never answered 'accepted'.",
+        "note": "Write failures are injected at the harness server (the whole Write RPC is refused), not inside the agent; pool contents are read in-package under the associations' handler locks.",
+    },
     "C04": {
         "technique": "runtime monitoring: reference-model monitor comparing the harness P4Runtime server's tables and meter cells with the image of the control plane's rules after every accepted request; in-process crash-point simulation",
         "text": "The real agent programs a harness-owned P4Runtime server that serves the shipped P4Info; after every accepted request the seven UP4 tables are compared with the reference image (sessions, terminations with action by FAR/QER/gate, QFI->TC, applications and tunnel peers present iff used, interfaces, meter-cell conservation), ids being resolved through the written tables. Crash points as for C03. Held on the explored histories inside the stated envelope.",
